@@ -39,6 +39,15 @@ theorem At.le {ds : List Dir} {i : Nat} {c : List Dir} (h : At ds i c) : i + c.l
   obtain ⟨pre, post, rfl, rfl⟩ := h
   simp
 
+theorem At.get {ds : List Dir} {i : Nat} {c : List Dir} (h : At ds i c) (k : Nat) (d : Dir) (hk : c[k]? = some d) :
+    ds[i + k]? = some d := by
+  obtain ⟨pre, post, rfl, rfl⟩ := h
+  rw [List.append_assoc, List.getElem?_append_right (by omega)]
+  simp only [Nat.add_sub_cancel_left]
+  rw [List.getElem?_append_left]
+  · exact hk
+  · exact (List.getElem?_eq_some_iff.mp hk).1
+
 /-! ### Labels -/
 
 def labelNames : List Dir → List String
